@@ -313,6 +313,14 @@ theorem processRun_chain (t : Str) (ch : List Rec) (hc : IsChain ch) :
     rw [h1, h2, h3]
     rfl
 
+theorem classify_chain_nonempty (ch : List Rec) (hc : IsChain ch) : emptyGroup (classifyGroup ch) = false := by
+  cases hch : ch with
+  | nil => exact absurd hch hc.ne
+  | cons g rest =>
+    have hg : isGeneT g = true := hc.head g (by rw [hch]; rfl)
+    unfold emptyGroup classifyGroup
+    simp [List.filter_cons, hg]
+
 theorem processRuns_chains : ∀ (tch : List (Str × List Rec)), (∀ p ∈ tch, IsChain p.2) →
     processRunsRec tch = .ok (tch.map fun p => classifyGroup p.2)
   | [], _ => by simp [processRunsRec, pure, Except.pure]
@@ -320,7 +328,8 @@ theorem processRuns_chains : ∀ (tch : List (Str × List Rec)), (∀ p ∈ tch,
     rw [processRunsRec]
     have hp : processRunRec p = .ok (classifyGroup p.2) := processRun_chain p.1 p.2 (h p List.mem_cons_self)
     simp only [bind, Except.bind, hp, processRuns_chains tch (fun q hq => h q (List.mem_cons_of_mem _ hq)),
-      pure, Except.pure, List.map_cons]
+      pure, Except.pure, List.map_cons, classify_chain_nonempty p.2 (h p List.mem_cons_self),
+      Bool.false_eq_true, if_false]
 
 /-- hypotheses of T3 on a list of tagged chains -/
 structure TaggedChains (tch : List (Str × List Rec)) : Prop where
